@@ -572,6 +572,13 @@ def compare_run(model_fields, res, first_runtime_only=True, mask_clock=False):
         # model: the Go runtime dies of stack exhaustion printing a self-containing value; growing a goroutine stack
         # to its 1 GB limit can outlast the time limit on a loaded machine: still on its way to the predicted crash
         return None
+    if res['timeout'] and res.get('truncated') and not mstatus.startswith('noresult'):
+        # the implementation was stopped because it had written 1 MB (the cap that catches printing loops) while the
+        # model finishes with an output at least that long: compare the captured prefix; the rest is not observed
+        mo = model_stdout(mevents)
+        if len(res['stdout']) >= 1000000 and len(mo) >= len(res['stdout']) and mo[:len(res['stdout']) - 8] == res['stdout'][:len(res['stdout']) - 8]:
+            INCONCLUSIVE.append('output-cap')
+            return None
     if res['timeout']:
         return 'implementation timed out; model status ' + mstatus
     if mitems_l == ['C']:
